@@ -123,6 +123,8 @@ def remainder_map(facts, cls, where):
 
 
 def run(ctx, report):
+    from .premises import accessor_entries, stateless_premise
+    stateless_premise(ctx, report, 'R07-P1-stateless', ['national'], extra=None, stop=(), outside=("schwifty.iban", "schwifty.bic"))
     prog = ctx.program
     facts = ctx.facts
     reg = ctx.registry
